@@ -23,9 +23,9 @@ MCSpec == MCInit /\ [][MCNext]_vars
 ReuseInit ==
   /\ ev = [e \in E |-> [st |-> "alive", fd |-> IF e <= 2 THEN e ELSE 0, mask |-> {"R"}, os |-> FALSE, en |-> e <= 2]]
   /\ map = [fd \in FD |-> IF fd <= 2 THEN fd ELSE 0]
-  /\ recs = [r \in RID |-> IF r <= 2 THEN [live |-> TRUE, fd |-> r, ref |-> 1, subs |-> {r}] ELSE DeadRec]
+  /\ recs = [r \in RID |-> IF r <= 2 THEN [live |-> TRUE, fd |-> r, ref |-> 1, subs |-> <<r>>] ELSE DeadRec]
   /\ pool = <<>> /\ ready = [fd \in FD |-> IF fd <= 2 THEN {"R"} ELSE {}] /\ closed = [fd \in FD |-> FALSE]
-  /\ phase = "idle" /\ rlist = {} /\ cur = NoCur /\ copy = {} /\ run = 0 /\ opsLeft = 0 /\ passes = 0
+  /\ phase = "idle" /\ rlist = {} /\ cur = NoCur /\ copy = <<>> /\ run = 0 /\ opsLeft = 0 /\ passes = 0
   /\ pins = {} /\ pollReady = [fd \in FD |-> {}] /\ cbEn = FALSE /\ viol = {}
 ReuseSpec == ReuseInit /\ [][Poll \/ DoNextFd \/ DoSub \/ DoCbOp \/ CbReturn \/ FinishFd \/ EndPass]_vars
 ====
